@@ -10,6 +10,17 @@ S = "engine S: symnum term-valued execution of the real NumPy/torch code + z3"
 Z = "engine Z: AST -> SMT-LIB integer kernels (z3)"
 
 CLAIMED = {
+    "C01": dict(
+        engine="X",
+        technique="CrossHair symbolic execution of the real save()/load() against an in-memory zarr/file-system model; structural-equality post-condition; counterexamples replayed on the real zip/dir stores",
+        text=("bounded model checking: object graphs of depth <= 3 are decoded from symbolic kind selectors and carry symbolic "
+              "int/float/str/bool payloads; the real serializer code is executed path by path by CrossHair/z3 and "
+              "'Confirmed over all paths' means load(save(o)) is structurally equal for every value inside the bound; "
+              "values that must cross into NumPy/torch come from menus of representatives chosen by symbolic selectors"),
+        note=("trusts CrossHair/z3 and the in-memory store model (vf/stubs/memfs.py), which is validated against the real "
+              "zarr zip/directory stores on every run; store kind, compression level, path type and mode are exercised "
+              "only by the concrete validation/replay runs; floats are reals until realised"),
+        design_ref="DESIGN.md §5 C01"),
     "C19": dict(
         engine="X",
         technique="CrossHair symbolic execution of the real config functions (z3), reference-model post-conditions, counterexample replay",
